@@ -483,7 +483,7 @@ func buildInput(r *rand.Rand, kind, mut int, thorough bool) []byte {
 		if r.IntN(12) == 0 {
 			m = sizes[8+r.IntN(2)]
 		}
-		if thorough && r.IntN(400) == 0 {
+		if thorough && r.IntN(4000) == 0 {
 			m = []int{1<<24 - 1, 1 << 24}[r.IntN(2)]
 		}
 		t := s.tag
